@@ -126,6 +126,7 @@ fn widest_child_names(docs: &[Doc]) -> Vec<String> {
 }
 
 pub fn check_c05(case: &HistoryCase, reps: usize, threads: usize, rep: &mut Report) {
+    crate::report::journal_enter(|| case.to_json());
     rep.evaluations += 1;
     let texts = case.texts();
     let mut r = Rng::new(fnv64(texts.concat().as_bytes()));
@@ -284,6 +285,9 @@ pub fn run_c05(thorough: bool, seed: u64, shards: usize) -> (Report, String) {
         r
     });
     rep.merge(sub);
+    if crate::report::child_mode().is_some() {
+        return (rep, String::new());
+    }
     // processes: the first `np_cases` cases hashed by P fresh processes
     let procs = if thorough { 8 } else { 4 };
     let np_cases: u64 = if thorough { 200_000 } else { 20_000 };
@@ -385,6 +389,7 @@ fn run_texts(texts: &[String], kinds: &[ReaderKind], cfg: Cfg) -> Result<(String
 }
 
 pub fn check_c11(case: &HistoryCase, rep: &mut Report) {
+    crate::report::journal_enter(|| case.to_json());
     rep.evaluations += 1;
     let mut r = Rng::new(fnv64(format!("{:?}", case.origin).as_bytes()));
     let plain: Vec<String> = case.docs.iter().map(|d| gen::write_doc(d, &Surface { seed: 1, empty_style: 0, fancy: false, lead: 0 })).collect();
@@ -612,6 +617,7 @@ fn permutations(n: usize, r: &mut Rng, limit: usize) -> Vec<Vec<usize>> {
 const ELEMENTLESS: &[&str] = &["", " ", "\n\n", "<!-- only a comment -->", "<?xml version=\"1.0\"?>", "<?xml version=\"1.0\"?>\n<!DOCTYPE r>\n", "just text", "<?pi?>"];
 
 pub fn check_c06(case: &HistoryCase, rep: &mut Report) {
+    crate::report::journal_enter(|| case.to_json());
     rep.evaluations += 1;
     let m = model::infer(&case.docs);
     if !model::bound_names_unique(&m) {
@@ -907,6 +913,7 @@ const LONG_OPTION: &str = "Serialize, Deserialize, Debug, Clone, PartialEq, Eq, 
 const OPTION_STRINGS: &[&str] = &[LONG_OPTION, "a_very_long_prefix_that_goes_on_and_on_and_on_and_on_and_on_and_on_and_on_and_on_and_on_and_on_and_on_and_on_and_on_and_on_and_on_and_on_and_on_and_on_and_on_and_on_and_on_and_on_and_on_and_on_and_on_and_on_and_on_and_on_and_on_and_on_and_on_and_on_and_on_", "é", "K", "", "Debug", "Serialize, Deserialize", "Serialize, Deserialize, Debug, Clone, PartialEq", "a\"b", "x\ny", "\\", "@", "attr_", "$value", "#text", "$text", "ünï", " ", "@@", "{}", "text", "a_b"];
 
 pub fn check_c10(case: &HistoryCase, rep: &mut Report) {
+    crate::report::journal_enter(|| case.to_json());
     rep.evaluations += 1;
     let texts = case.texts();
     let tree = match guarded(|| real::run_history(&texts, &case.kinds, Cfg::default())) {
